@@ -82,8 +82,9 @@ CanExit(s, p) == s.pc[p] \in InBody
 Exit(s, p) == [s EXCEPT !.pc[p] = IF s.pc[p] = "body" THEN "del" ELSE "gu"]
 
 \* all quiescent states reachable by internal steps only
-RECURSIVE Settle(_, _)
-Settle(s, go) == (IF Quiescent(s, go) THEN {s} ELSE {}) \cup UNION {Settle(t, go) : t \in Succs(s, go)}
+RECURSIVE Reach(_, _)
+Reach(S, go) == LET T == S \cup UNION {Succs(t, go) : t \in S} IN IF T = S THEN S ELSE Reach(T, go)
+Settle(s, go) == {t \in Reach({s}, go) : Quiescent(t, go)}
 
 \* what the driver can see at a quiescent point
 Phase(s, p) == IF s.pc[p] = "idle" THEN "idle" ELSE IF s.pc[p] \in InBody THEN "body" ELSE "wait"
